@@ -20,6 +20,7 @@ func init() {
 			ruleC19U3(r)
 			ruleC19U4(r)
 			ruleFreshPerSend(r, "U5", "/transport/", "/wire", "/iscp", "/internal/")
+			ruleNoSwallowedErrors(r, "U6", 3, true, "/transport/multi")
 		},
 	})
 }
